@@ -34,10 +34,44 @@ def parseSrc (ws : List String) : Option (List Outcome) :=
       | some l, some o => some (l ++ o)
       | _, _ => none) (some [])
 
-def parseView (ws : List String) : Option View :=
-  match (kv ws "chain").bind parseNatList, kvNat ws "window" with
-  | some c, some w => some { chain := c, window := w }
+/-- `[7:7:6,8:8:7]` : side blocks (id:height:parent). -/
+def parseSide (s : String) : Option (List (Nat × Nat × Nat)) :=
+  let inner := ((s.drop 1).dropEnd 1).toString
+  if inner == "" then some [] else
+  (inner.splitOn ",").mapM fun item =>
+    match (item.splitOn ":").mapM String.toNat? with
+    | some [a, b, c] => some (a, b, c)
+    | _ => none
+
+/-- `chain<sfx>=[..] window<sfx>=k [side<sfx>=[..]]` -/
+def parseViewSfx (ws : List String) (sfx : String) : Option View :=
+  match (kv ws ("chain" ++ sfx)).bind parseNatList, kvNat ws ("window" ++ sfx) with
+  | some c, some w =>
+    match kv ws ("side" ++ sfx) with
+    | none => some { chain := c, window := w }
+    | some t => (parseSide t).map fun sd => { chain := c, window := w, side := sd }
   | _, _ => none
+
+def parseView (ws : List String) : Option View := parseViewSfx ws ""
+
+/-- `inject=<Kind>#<k>:<hdr args>` → (kind, k). -/
+def parseInject (s : String) : Option (Call × Nat) :=
+  match s.splitOn ":" with
+  | head :: _ =>
+    match head.splitOn "#" with
+    | [kind, k] =>
+      let c : Option Call :=
+        if kind == "LastHash" then some .lastHash
+        else if kind == "HashHeight" then some .hashHeight
+        else if kind == "PreviousHash" then some .previousHash
+        else if kind == "Hash" then some .hash
+        else if kind == "Height" then some .height
+        else none
+      match c, k.toNat? with
+      | some c, some k => if k ≥ 1 then some (c, k) else none
+      | _, _ => none
+    | _ => none
+  | [] => none
 
 def showIds (l : List Nat) : String := "[" ++ joinWith "," (l.map toString) ++ "]"
 def showConf (l : List (Nat × Nat)) : String :=
@@ -94,9 +128,25 @@ def stepLine (od : Option D) (line : String) : Option D × String :=
         match parseSrc rest with
         | some outs =>
           if d.waiting.isSome || d.hung || d.threadMode then (od, "bad-op") else
-          let d := go { d with outs := outs, s := startRound d.s }
-          let (d, o) := flush d
-          (some d, o)
+          match kv rest "inject" with
+          | none =>
+            let d := go { d with outs := outs, s := startRound d.s }
+            let (d, o) := flush d
+            (some d, o)
+          | some spec =>
+            match parseInject spec with
+            | none => (od, "bad-op")
+            | some (c, k) =>
+              -- the harness wrote the view after the change into the op text when it happened
+              let E : Env :=
+                match parseViewSfx rest "2" with
+                | some v2 => injectEnv d.s.view v2 c k
+                | none => fun _ => d.s.view
+              let hist := (planResE E d.s.isProcessed d.s.start).2
+              let fired := (hist.filter (· == c)).length ≥ k
+              let d := go { d with outs := outs, s := startRoundE d.s E }
+              let (d, o) := flush d
+              (some d, o ++ (if fired then " inj=1" else " inj=0"))
         | none => (od, "bad-op")
       else if verb == "release" then
         match d.hung, d.waiting, parseSrc rest with
